@@ -37,9 +37,6 @@ MUTANTS = [
     dict(name='c03_rmtree_in_remove_empty_dirs', props=['C03', 'C12'], file=FB,
          old="            try:\n                os.rmdir(dir_)\n            except OSError:\n                continue\n            logger.info('Removed empty directory {:s}'.format(dir_))",
          new="            import shutil\n            try:\n                shutil.rmtree(dir_)\n            except OSError:\n                continue"),
-    dict(name='c03_make_room_moves_foreign', props=['C03', 'C01'], file=FB,
-         old="            elif self._simple_operation_executor.is_file(absolute_subfile):\n                error = True\n",
-         new="            elif False:\n                error = True\n"),
     dict(name='c03_clean_removes_all_files_in_created_dirs', props=['C03', 'C12'], file=FB,
          old="        FileBuilder._try_to_remove_file(cache_filename)\n        FileBuilder._remove_empty_dirs(cache.created_dirs())",
          new="        FileBuilder._try_to_remove_file(cache_filename)\n        for dir_ in cache.created_dirs():\n            if os.path.isdir(dir_):\n                for name in os.listdir(dir_):\n                    FileBuilder._try_to_remove_file(os.path.join(dir_, name))\n        FileBuilder._remove_empty_dirs(cache.created_dirs())"),
@@ -134,9 +131,6 @@ MUTANTS += [
     dict(name='c13_metadata_only_size', props=['C13'], file=SOE,
          old="            'size': stats.st_size,\n            'timeNs': stats.st_mtime_ns,",
          new="            'size': stats.st_size,"),
-    dict(name='c13_hash_memo_ignores_is_built', props=['C13', 'C01'], file=SOE,
-         old="        if cache_entry is not None and cache_entry[1] == is_built:",
-         new="        if cache_entry is not None:"),
     dict(name='c13_hash_read_uses_metadata', props=['C13'], file=SOE,
          old="        elif file_comparison_name == 'HASH':\n            return self._file_hash(filename)",
          new="        elif file_comparison_name == 'HASH':\n            return self._file_metadata(filename)"),
@@ -253,8 +247,11 @@ MUTANTS += [
          old="        try:\n            os.rename(filename, backup_filename)\n        except FileNotFoundError:\n            return False",
          new="        try:\n            os.rename(filename, backup_filename)\n        except OSError:\n            return False"),
     dict(name='c14_build_file_setup_error_keeps_reservation', props=['C14'], file=FB,
-         old="            self._new_cache.start_building_file(filename)\n        except Exception:\n            self._build_dirs.error_building_file(filename)\n            raise",
-         new="            self._new_cache.start_building_file(filename)\n        except Exception:\n            raise"),
+         old="            except Exception:\n                self._new_cache.cancel_building_file(filename)\n                raise\n        except Exception:\n            self._build_dirs.error_building_file(filename)\n            raise",
+         new="            except Exception:\n                self._new_cache.cancel_building_file(filename)\n                raise\n        except Exception:\n            raise"),
+    dict(name='c14_reservation_not_cancelled_when_backup_fails', props=['C14'], file=FB,
+         old="            except Exception:\n                self._new_cache.cancel_building_file(filename)\n                raise\n        except Exception:",
+         new="            except Exception:\n                raise\n        except Exception:"),
     dict(name='c14_make_dirs_no_undo', props=['C14'], file=FB,
          old="            FileBuilder._remove_empty_dirs(made_dirs)\n            raise",
          new="            raise"),
